@@ -12,7 +12,8 @@ RULE = ('strings: every string of length 0..5 (quick) / 0..6 (thorough) over the
         'matches before a trailing one), enumerated exhaustively and given to all five validators; '
         'random strings to length 300 over a wider alphabet; names built by construction at the 254/255/256 byte '
         'boundary; oracle: hand-written recognisers of the spec grammar (refcodec), validator returns <=> recogniser '
-        'accepts, every rejection is MarshallingError. ctor: each message class x each name-carrying argument x '
+        'accepts, every rejection is MarshallingError, and the verdicts are the same when every validator is asked '
+        'again in the opposite order (no dependence on what was validated before). ctor: each message class x each name-carrying argument x '
         'valid / invalid / empty value: if the message is built, every name in its encoded header is grammar-valid. '
         'Non-trivial = the string (or the string with one character deleted) is accepted by at least one recogniser; '
         'distinct = distinct string / constructor case.')
@@ -105,6 +106,19 @@ def run_string(case):
             out.append(Disc('val.%s.accepts-invalid:%s' % (kind, _why(kind, s)), '%s accepted %r' % (fname, s)))
         elif expect and not got:
             out.append(Disc('val.%s.rejects-valid' % kind, '%s rejected %r' % (fname, s)))
+    if out:
+        return out
+    # the verdict on a string in one role does not depend on what was asked before: the same string is now put to every
+    # validator again, in the opposite order (a name valid as a bus name has just been accepted there, for instance)
+    for kind, fname, rec in reversed(KINDS):
+        try:
+            getattr(M, fname)(s)
+            got = True
+        except Exception:
+            got = False
+        if got != rec(s):
+            out.append(Disc('val.%s.verdict-depends-on-history' % kind, '%s(%r) answered %s on the second asking, after the '
+                            'other validators had seen the same string' % (fname, s, 'valid' if got else 'invalid')))
     return out
 
 
